@@ -67,6 +67,7 @@ func mkErr(name string, class int) error {
 }
 
 type scriptTarget struct {
+	onlyStatusFaults bool // faults only in per-recipient body statuses
 	lenientAbort bool // Abort after a failed Commit is tolerated (not every caller's contract forbids it)
 	name       string
 	partial    bool // offers module.PartialDelivery
@@ -121,6 +122,9 @@ type scriptPartial struct{ *scriptDelivery }
 
 func (t *scriptTarget) fault(name string) int {
 	if t.faultFree {
+		return fOK
+	}
+	if t.onlyStatusFaults && !strings.HasPrefix(name, "status.") {
 		return fOK
 	}
 	return nondetInt(fmt.Sprintf("%s.%d.%s", t.name, t.attempt, name), 0, scriptClasses-1)
